@@ -398,3 +398,30 @@ def prefix_offsets_ok(f, b, total, n):
 def case_next(case):
     """evaluating at k + 1 under the case on k: k < r  =>  k + 1 <= r, handled inside sign() through the polynomial itself"""
     return case
+
+
+# ---- library call signatures (A4): positional and keyword arguments bound to parameter names ---------------------------
+API_SIGS = {
+    'np.random.randint': ('low', 'high', 'size', 'dtype'),
+    'numpy.random.randint': ('low', 'high', 'size', 'dtype'),
+    'np.random.random_integers': ('low', 'high', 'size'),
+    'random.randint': ('a', 'b'),
+    'np.random.choice': ('a', 'size', 'replace', 'p'),
+    'numpy.random.choice': ('a', 'size', 'replace', 'p'),
+    'random.choice': ('seq',),
+}
+
+
+def bind_api(t):
+    """call term of a known library function -> {parameter name: argument term} (keyword or positional), else None"""
+    if t[0] != 'call':
+        return None
+    sig = API_SIGS.get(show(t[1]))
+    if sig is None:
+        return None
+    out = {}
+    for name, a in zip(sig, t[2]):
+        out[name] = a
+    for k, v in t[3]:
+        out[k] = v
+    return out
